@@ -160,6 +160,9 @@ def step(kind, wild=False):
     s = _sym_state("s0")
     rig.master._state = m
     rig.slave._state = s
+    # the last received heartbeat state is independent of the state commands have moved the view to
+    if sx.choice(2, "has_received"):
+        rig.master._state_received = sx.fresh_int("received", 0, 127)
     m2, s2 = _do_step(rig, kind, m, s, "step")
     _check_states(rig, m2, s2, "step")
 
